@@ -23,8 +23,16 @@ def run_job(job):
     detail = job.get("detail")
     world = None
     if job["kind"] == "spec":
-        world = World(job["world"], gens=(_det_controller(),) if job.get("det") else (), builtin_first=True, real_handlers=False, end_steps=job["steps"] + 5)
+        # the real built-in generators (no recording proxies here: the co-simulation generator API addresses them by class)
+        world = World(job["world"], gens=None, real_handlers=False, end_steps=job["steps"] + 5)
         rp = world.rp
+        if job.get("det"):
+            from nrel.hive.dispatcher.instruction_generator.charging_fleet_manager import ChargingFleetManager
+            from nrel.hive.dispatcher.instruction_generator.dispatcher import Dispatcher
+            from nrel.hive.runner import runner_payload_ops as rpo
+
+            cfg = rp.e.config.dispatcher
+            rp = rpo.set_instruction_generators(rp, (Dispatcher(cfg), ChargingFleetManager(cfg), _det_controller()))
     else:
         from pathlib import Path
         import tempfile
@@ -43,6 +51,12 @@ def run_job(job):
         flags = set()
         full = None
         for k in range(job["steps"]):
+            if job.get("reinject") and k % 10 == 5:
+                # co-simulation controllers replace a generator mid-run through the public API (docs/source/customize.md)
+                from nrel.hive.dispatcher.instruction_generator.dispatcher import Dispatcher
+                from nrel.hive.runner import runner_payload_ops as rpo
+
+                rp = rpo.update_instruction_generator(rp, rpo.get_instruction_generator(rp, Dispatcher))
             with quiet():
                 rp = hive_cosim.crank(rp, 1).runner_payload
             cs = canon(rp.s)
